@@ -14,6 +14,7 @@ import (
 	"errors"
 	"fmt"
 	"io"
+	"math/big"
 	"os"
 	"strings"
 	"sync"
@@ -27,7 +28,7 @@ import (
 // ---------- configuration ----------
 type Cfg struct {
 	MaxNode, MaxKey, MaxVal, FlushThld, SyncThld, MaxBuf, CompThld, MaxSnaps, Cache, FileSize int
-	Cleanup                                                                                  float32
+	Cleanup                                                                                   float32
 }
 
 func (c Cfg) opts() *tbtree.Options {
@@ -79,11 +80,11 @@ type Op struct {
 	Desc             bool
 	Limit            int
 	// reader
-	Seek, End        string
-	IncSeek, IncEnd  bool
-	Mode             string // latest | history | between
-	Defer            int    // finish reading after this many further operations (0 = at once)
-	Async            bool   // read in a goroutine while the writer proceeds
+	Seek, End       string
+	IncSeek, IncEnd bool
+	Mode            string // latest | history | between
+	Defer           int    // finish reading after this many further operations (0 = at once)
+	Async           bool   // read in a goroutine while the writer proceeds
 }
 
 func hx(s string) []byte {
@@ -94,7 +95,31 @@ func hx(s string) []byte {
 	return b
 }
 func hs(b []byte) string { return hex.EncodeToString(b) }
-func ch(s string) string { return `(hx "` + s + `")` }
+
+// yn: compact numeric code of a byte string of at most 15 bytes (Tie/C10.v `y`)
+func yn(s string) string {
+	b := hx(s)
+	if len(b) > 15 {
+		panic("byte string too long for the compact code")
+	}
+	v := new(big.Int)
+	v.SetBytes(b)
+	v.Lsh(v, 4)
+	v.Add(v, big.NewInt(int64(len(b))))
+	return v.String()
+}
+func ch(s string) string { return "(y " + yn(s) + ")" }
+
+// tempBase: the temp dirs go to a memory file system when there is one (thousands of tiny synced
+// files per run; fsync on a shared disk dominates otherwise); TMPDIR, when set, is honoured
+func tempBase() string {
+	if os.Getenv("TMPDIR") == "" {
+		if st, err := os.Stat("/dev/shm"); err == nil && st.IsDir() {
+			return "/dev/shm"
+		}
+	}
+	return ""
+}
 
 // ---------- running a case on the real tbtree ----------
 type pending struct {
@@ -112,24 +137,23 @@ type openSnap struct {
 }
 
 type runner struct {
-	r     *vk.Run
-	cfg   Cfg
-	dir   string
-	t     *tbtree.TBtree
-	snaps map[int]*openSnap
-	recs  []string // Coq op terms
-	descr []string // human-readable outcome per op
-	ops   []Op
-	nops  int
-	or    *oracle
-	viol  []string // oracle violations that are not known findings
-	known []string
-	stats map[string]int
+	cfg          Cfg
+	dir          string
+	t            *tbtree.TBtree
+	snaps        map[int]*openSnap
+	recs         []string // Coq op terms
+	descr        []string // human-readable outcome per op
+	ops          []Op
+	nops         int
+	or           *oracle
+	viol         []string // oracle violations that are not known findings
+	known        []string
+	stats        map[string]int
 	maxDepthKeys int
 }
 
-func newRunner(r *vk.Run, cfg Cfg) (*runner, error) {
-	dir, err := os.MkdirTemp("", "vh-c10-")
+func newRunner(cfg Cfg) (*runner, error) {
+	dir, err := os.MkdirTemp(tempBase(), "vh-c10-")
 	if err != nil {
 		return nil, err
 	}
@@ -138,7 +162,7 @@ func newRunner(r *vk.Run, cfg Cfg) (*runner, error) {
 		os.RemoveAll(dir)
 		return nil, err
 	}
-	return &runner{r: r, cfg: cfg, dir: dir, t: t, snaps: map[int]*openSnap{}, or: newOracle(cfg), stats: map[string]int{}}, nil
+	return &runner{cfg: cfg, dir: dir, t: t, snaps: map[int]*openSnap{}, or: newOracle(cfg), stats: map[string]int{}}, nil
 }
 
 func (x *runner) cleanup() {
@@ -158,13 +182,13 @@ func v3(v []byte, ts, hc uint64, err error) string {
 	if err != nil {
 		return "None"
 	}
-	return fmt.Sprintf("(Some (%s, %d, %d))", ch(hs(v)), ts, hc)
+	return fmt.Sprintf("(Some (V3 %s %d %d))", yn(hs(v)), ts, hc)
 }
 
 func tvsCoq(tvs []tbtree.TimedValue) string {
 	xs := make([]string, len(tvs))
 	for i, tv := range tvs {
-		xs[i] = fmt.Sprintf("(%s, %d)", ch(hs(tv.Value)), tv.Ts)
+		xs[i] = fmt.Sprintf("TV %s %d", yn(hs(tv.Value)), tv.Ts)
 	}
 	return vk.List(xs)
 }
@@ -177,7 +201,7 @@ type ent struct {
 func entsCoq(es []ent) string {
 	xs := make([]string, len(es))
 	for i, e := range es {
-		xs[i] = fmt.Sprintf("(%s, %s, %d, %d)", ch(hs(e.k)), ch(hs(e.v)), e.ts, e.hc)
+		xs[i] = fmt.Sprintf("E4 %s %s %d %d", yn(hs(e.k)), yn(hs(e.v)), e.ts, e.hc)
 	}
 	return vk.List(xs)
 }
@@ -219,7 +243,7 @@ func (x *runner) exec(o Op) error {
 		terms := make([]string, len(o.Kvts))
 		for i, e := range o.Kvts {
 			kvts[i] = &tbtree.KVT{K: hx(e.K), V: hx(e.V), T: e.T}
-			terms[i] = fmt.Sprintf("(%s, %s, %d)", ch(e.K), ch(e.V), e.T)
+			terms[i] = fmt.Sprintf("KV %s %s %d", yn(e.K), yn(e.V), e.T)
 		}
 		err := x.t.BulkInsert(kvts)
 		x.record(o, fmt.Sprintf("OInsert %s %s", vk.List(terms), vk.Bool(err == nil)), errS(err))
@@ -350,7 +374,7 @@ func (x *runner) exec(o Op) error {
 		}
 		out := "None"
 		if err == nil {
-			out = fmt.Sprintf("(Some (%s, %s, %d, %d))", ch(hs(k)), ch(hs(v)), ts, hc)
+			out = fmt.Sprintf("(Some (E4 %s %s %d %d))", yn(hs(k)), yn(hs(v)), ts, hc)
 		}
 		x.record(o, fmt.Sprintf("OGetPrefix %s %s %s %s", x.target(o), ch(o.Prefix), ch(o.Neq), out), fmt.Sprintf("%x %x %d %d %s", k, v, ts, hc, errS(err)))
 		x.or.prefix(x, o, k, v, ts, hc, err == nil)
@@ -365,7 +389,7 @@ func (x *runner) exec(o Op) error {
 }
 
 func rsCoq(o Op) string {
-	return fmt.Sprintf("(RS %s %s %s %s %s %s %d)", ch(o.Seek), ch(o.End), ch(o.Prefix), vk.Bool(o.IncSeek), vk.Bool(o.IncEnd), vk.Bool(o.Desc), o.Off)
+	return fmt.Sprintf("(RS %s %s %s %s %s %s %d)", yn(o.Seek), yn(o.End), yn(o.Prefix), vk.Bool(o.IncSeek), vk.Bool(o.IncEnd), vk.Bool(o.Desc), o.Off)
 }
 
 func modeCoq(o Op) string {
@@ -506,19 +530,46 @@ func (x *runner) finishDue(all bool) {
 	}
 }
 
-// emit writes the case
-func (x *runner) emit(bucket string) {
+// result of one case, handed to vk.Run in generation order
+type caseResult struct {
+	coq        string
+	js         map[string]any
+	bucket     string
+	nontrivial bool
+	viol       []string
+	known      []string
+	cfg        Cfg
+	extra      map[string]int
+}
+
+func (x *runner) result(bucket string) *caseResult {
 	x.finishDue(true)
 	coq := fmt.Sprintf("Case %s %s", x.cfg.coq(), "[\n  "+strings.Join(x.recs, ";\n  ")+"]")
 	js := map[string]any{"cfg": x.cfg, "ops": x.ops, "outcomes": x.descr,
 		"oracle_violation": len(x.viol) > 0, "violations": x.viol, "known": x.known}
-	nontrivial := x.or.maxKeys >= 2 && len(x.ops) >= 5
-	x.r.Case(coq, js, bucket, nontrivial)
-	for _, v := range x.viol {
-		x.r.Finding(fmt.Sprintf("C10 seed=%d case=%d cfg=%+v: %s", x.r.Seed, x.r.N-1, x.cfg, v))
+	// distribution: profile / number of distinct keys the tree reached (with the tiny nodes used,
+	// 8+ keys means at least 3 levels, 20+ keys 4 or more)
+	kc := "keys0-1"
+	switch {
+	case x.or.maxKeys >= 20:
+		kc = "keys20+"
+	case x.or.maxKeys >= 8:
+		kc = "keys8-19"
+	case x.or.maxKeys >= 2:
+		kc = "keys2-7"
 	}
-	for _, v := range x.known {
-		x.r.Finding(fmt.Sprintf("C10 seed=%d case=%d: %s", x.r.Seed, x.r.N-1, v))
+	bucket = bucket + "/" + kc
+	return &caseResult{coq: coq, js: js, bucket: bucket, nontrivial: x.or.maxKeys >= 2 && len(x.ops) >= 5,
+		viol: x.viol, known: x.known, cfg: x.cfg, extra: x.stats}
+}
+
+func (c *caseResult) emit(r *vk.Run) {
+	r.Case(c.coq, c.js, c.bucket, c.nontrivial)
+	for _, v := range c.viol {
+		r.Finding(fmt.Sprintf("C10 seed=%d case=%d cfg=%+v: %s", r.Seed, r.N-1, c.cfg, v))
+	}
+	for _, v := range c.known {
+		r.Finding(fmt.Sprintf("C10 seed=%d case=%d: %s", r.Seed, r.N-1, v))
 	}
 }
 
@@ -532,7 +583,7 @@ func Replay(r *vk.Run, c map[string]any) error {
 	if err := json.Unmarshal(b, &rec); err != nil {
 		return err
 	}
-	x, err := newRunner(r, rec.Cfg)
+	x, err := newRunner(rec.Cfg)
 	if err != nil {
 		return err
 	}
@@ -545,6 +596,6 @@ func Replay(r *vk.Run, c map[string]any) error {
 			return err
 		}
 	}
-	x.emit("replay")
+	x.result("replay").emit(r)
 	return nil
 }
